@@ -212,6 +212,8 @@ func (ex *Exec) blobOf(sl Slice) *Blob {
 }
 
 func initEnvStubs() {
+	initOsStubs()
+	initB64Stubs()
 	reg := func(name string, f intrinsicFn) { namedIntrinsics[name] = f }
 	reg("github.com/fxamacker/cbor/v2.Marshal", func(ex *Exec, fn *ssa.Function, args []Value, caller *Frame) Value {
 		iv, ok := args[0].(Iface)
@@ -424,4 +426,133 @@ func (ex *Exec) snapshotStringsValid(v Value) *Term {
 	}
 	walk(v)
 	return ok
+}
+
+// --------------------------------------------------------------------- base64
+
+// b64Char: the standard-alphabet character of a 6-bit value (no forking).
+func (ex *Exec) b64Char(n *Term) *Term {
+	ts := ex.ts
+	if n.IsConst() {
+		return ts.Const(8, uint64("ABCDEFGHIJKLMNOPQRSTUVWXYZabcdefghijklmnopqrstuvwxyz0123456789+/"[n.K&63]))
+	}
+	c := func(v uint64) *Term { return ts.Const(8, v) }
+	return ts.Ite(ts.Ult(n, c(26)), ts.Add(n, c('A')),
+		ts.Ite(ts.Ult(n, c(52)), ts.Add(n, c('a'-26)),
+			ts.Ite(ts.Ult(n, c(62)), ts.Sub(ts.Add(n, c('0')), c(52)),
+				ts.Ite(ts.Eq(n, c(62)), c('+'), c('/')))))
+}
+
+// b64Val: value and validity of a standard-alphabet character.
+func (ex *Exec) b64Val(ch *Term) (*Term, *Term) {
+	ts := ex.ts
+	c := func(v uint64) *Term { return ts.Const(8, v) }
+	in := func(lo, hi uint64) *Term { return ts.And(ts.Ule(c(lo), ch), ts.Ule(ch, c(hi))) }
+	up, low, dig := in('A', 'Z'), in('a', 'z'), in('0', '9')
+	plus, slash := ts.Eq(ch, c('+')), ts.Eq(ch, c('/'))
+	val := ts.Ite(up, ts.Sub(ch, c('A')),
+		ts.Ite(low, ts.Add(ts.Sub(ch, c('a')), c(26)),
+			ts.Ite(dig, ts.Add(ts.Sub(ch, c('0')), c(52)),
+				ts.Ite(plus, c(62), c(63)))))
+	valid := ts.Or(ts.Or(up, low), ts.Or(dig, ts.Or(plus, slash)))
+	return val, valid
+}
+
+func (ex *Exec) b64Encode(src []*Term) []*Term {
+	ts := ex.ts
+	var out []*Term
+	c := func(v uint64) *Term { return ts.Const(8, v) }
+	shr := func(b *Term, n uint64) *Term { return ts.BinBV(OLShr, b, c(n)) }
+	shl := func(b *Term, n uint64) *Term { return ts.BinBV(OShl, b, c(n)) }
+	and := func(b *Term, m uint64) *Term { return ts.BinBV(OAnd, b, c(m)) }
+	or := func(a, b *Term) *Term { return ts.BinBV(OOr, a, b) }
+	for i := 0; i < len(src); i += 3 {
+		b0 := src[i]
+		var b1, b2 *Term
+		if i+1 < len(src) {
+			b1 = src[i+1]
+		}
+		if i+2 < len(src) {
+			b2 = src[i+2]
+		}
+		out = append(out, ex.b64Char(shr(b0, 2)))
+		if b1 == nil {
+			out = append(out, ex.b64Char(shl(and(b0, 3), 4)), c('='), c('='))
+			break
+		}
+		out = append(out, ex.b64Char(or(shl(and(b0, 3), 4), shr(b1, 4))))
+		if b2 == nil {
+			out = append(out, ex.b64Char(shl(and(b1, 15), 2)), c('='))
+			break
+		}
+		out = append(out, ex.b64Char(or(shl(and(b1, 15), 2), shr(b2, 6))), ex.b64Char(and(b2, 63)))
+	}
+	return out
+}
+
+func initB64Stubs() {
+	reg := func(name string, f intrinsicFn) { namedIntrinsics[name] = f }
+	reg("(*encoding/base64.Encoding).EncodeToString", func(ex *Exec, fn *ssa.Function, args []Value, caller *Frame) Value {
+		sl, _ := args[1].(Slice)
+		if sl.Rope != nil {
+			ex.unsupported("base64 of opaque content")
+		}
+		src := make([]*Term, len(sl.A))
+		for i, e := range sl.A {
+			src[i] = e.(*Term)
+		}
+		out := ex.b64Encode(src)
+		if len(out) == 0 {
+			return Str{}
+		}
+		return Str{Segs: []Seg{{B: out}}}
+	})
+	reg("(*encoding/base64.Encoding).DecodeString", func(ex *Exec, fn *ssa.Function, args []Value, caller *Frame) Value {
+		s := strArg(ex, args[1], "base64.DecodeString")
+		if s.HasOpaque() {
+			ex.unsupported("base64 decode of opaque content")
+		}
+		ts := ex.ts
+		bs := flatBytes(s)
+		fail := func() Value {
+			return Tuple{Slice{A: []Value{}}, ex.mkError(ex.strLit("illegal base64 data"))}
+		}
+		if len(bs)%4 != 0 {
+			return fail()
+		}
+		var out []Value
+		c := func(v uint64) *Term { return ts.Const(8, v) }
+		shl := func(b *Term, n uint64) *Term { return ts.BinBV(OShl, b, c(n)) }
+		shr := func(b *Term, n uint64) *Term { return ts.BinBV(OLShr, b, c(n)) }
+		or := func(a, b *Term) *Term { return ts.BinBV(OOr, a, b) }
+		valid := ts.True()
+		for i := 0; i < len(bs); i += 4 {
+			q := bs[i : i+4]
+			last := i+4 == len(bs)
+			pad := 0
+			if last && ex.isByte(q[3], '=') {
+				pad = 1
+				if ex.isByte(q[2], '=') {
+					pad = 2
+				}
+			}
+			var v [4]*Term
+			for j := 0; j < 4-pad; j++ {
+				val, ok := ex.b64Val(q[j])
+				v[j] = val
+				valid = ts.And(valid, ok)
+			}
+			out = append(out, or(shl(v[0], 2), shr(v[1], 4)))
+			if pad < 2 {
+				out = append(out, or(shl(v[1], 4), shr(v[2], 2)))
+			}
+			if pad < 1 {
+				out = append(out, or(shl(v[2], 6), v[3]))
+			}
+		}
+		if !ex.branch(valid) {
+			return fail()
+		}
+		return Tuple{Slice{A: out}, Iface{}}
+	})
 }
